@@ -5,7 +5,9 @@ import Chiritori.Props.C05
 
   Full statement: `Statement` (idempotence, and stepwise = one-shot up to whitespace along non-decreasing chains
   of configurations) for rendered AST documents.  It is FALSE of the current code for documents in which an
-  element ends a code line (known finding D14): `c19_negation_D14` replays the witness in the kernel.
+  element ends a code line (known finding D14): `c19_negation_D14` replays the witness in the kernel; and for
+  documents in which a wrapper line of an unwrap-block is a tag line of another element (known finding D16,
+  `c19_negation_D16`, `c19_negation_D16_stacked`).
   Proved:
   * `ready_monotone`: along a chain (time advancing, target set growing, same tag names and offset) no element
     ever becomes un-ready - the set of removable extents of a fixed source only grows (C05/C06 lifted);
@@ -109,5 +111,26 @@ theorem c19_negation_D14 :
     nonws (cleanOr (cleanOr d14 978307200) 1041379200) ≠ nonws (cleanOr d14 1041379200) := by decide +kernel
 
 example : cleanOr d14 1041379200 = "  code ".toList := by decide +kernel
+
+/-! ### the known finding D16, replayed in the kernel -/
+def cfgA (now : Int) : Cfg := ⟨"tl".toList, "rm".toList, now, 0, "+00:00".toList, ["a".toList]⟩
+def cleanA (src : List Char) (now : Int) : List Char :=
+  match clean src "<".toList ">".toList (cfgA now) with
+  | .ok o => o
+  | .error _ => "PANIC".toList
+def d16 : List Char := "pre\n<tl to='2003-01-01 00:00:00' unwrap-block>\n<rm name='a'>\nx\n</rm>\n</tl>\npost\n".toList
+def d16b : List Char :=
+  "pre\n<tl to='2003-01-01 00:00:00' unwrap-block>\n<rm name='a' unwrap-block>\n{\nx\n}\n</rm>\n</tl>\npost\n".toList
+
+/-- an unwrap-block whose wrapper lines are the tag lines of its only child: the earlier run (2001, target `a`)
+    removes the child, the block is then too short to unwrap and its tags are stranded; one run in 2003 removes all -/
+theorem c19_negation_D16 :
+    cleanA (cleanA d16 978307200) 1041379200 = "pre\n<tl to='2003-01-01 00:00:00' unwrap-block>\n</tl>\npost\n".toList ∧
+    cleanA d16 1041379200 = "pre\npost\n".toList := by decide +kernel
+
+/-- the same with two unwrap-blocks stacked directly on each other -/
+theorem c19_negation_D16_stacked :
+    cleanA (cleanA d16b 978307200) 1041379200 = "pre\n<tl to='2003-01-01 00:00:00' unwrap-block>\nx\n</tl>\npost\n".toList ∧
+    cleanA d16b 1041379200 = "pre\nx\npost\n".toList := by decide +kernel
 
 end Chiritori.Props.C19
